@@ -114,6 +114,14 @@ def check_case(case):
         if not np.array_equal(xa, xb):
             out.bad(f"footprint {name} depends on the values of the source array (max diff {tol.maxabs(np.asarray(xa) - np.asarray(xb)):.3e})")
 
+    # "does not depend on the values at all": a flux map with gaps (NaN) or overflow markers (inf) is as good a placeholder
+    qn = q2.copy()
+    qn.flat[0] = np.nan
+    qn.flat[-1] = np.inf
+    fpn = sut.S(qn, z, prof, dom, lv, meas_pt=mp, footprint=True, **kw)
+    for name, xa, xb in (("conc", fpa[1], fpn[1]), ("flux", fpa[2], fpn[2])):
+        if not np.array_equal(xa, xb):
+            out.bad(f"footprint {name} depends on the values of the source array: a placeholder holding NaN / inf gives another result")
     # ... and the background is a uniform offset of the concentration footprint too, of either sign
     cb = c1 if c1 != 0.0 else (-2.5 if c2 == 0.0 else c2)
     fpc = sut.S(q2, z, prof, dom, lv, meas_pt=mp, footprint=True, srf_bg_conc=cb, **kw)
